@@ -86,7 +86,7 @@ CALLS = {'S:': ['word', 'synset', 'examples', 'counts', 'frames', 'relations', '
 def name_call(path):
     """/session/P:a|b[4] -> 'wup'"""
     import re
-    m = re.match(r'^/([^/]*)/((?:S|SS|P|W):)[^\[]*\[(\d+)\]', path)
+    m = re.match(r'^/([^/]*)/((?:SS|S|P|W):)[^\[]*\[(\d+)\]', path)
     if m and m.group(2) in CALLS and int(m.group(3)) < len(CALLS[m.group(2)]):
         return CALLS[m.group(2)][int(m.group(3))]
     m = re.match(r'^/(export|validate|dump):', path)
